@@ -3,13 +3,13 @@ module verif
 go 1.23.0
 
 require (
+	github.com/pelletier/go-toml v1.9.5
 	github.com/zmap/zcrypto v0.0.0-20250129210703-03c45d0bae98
 	github.com/zmap/zlint/v3 v3.0.0
 	golang.org/x/crypto v0.36.0
 )
 
 require (
-	github.com/pelletier/go-toml v1.9.5 // indirect
 	github.com/weppos/publicsuffix-go v0.40.3-0.20250127173806-e489a31678ca // indirect
 	golang.org/x/net v0.38.0 // indirect
 	golang.org/x/text v0.23.0 // indirect
